@@ -92,9 +92,13 @@ class KeyPool:
 _imported = {}
 
 
-def _signer(kt, kl_name, priv):
+def _signer(kt, kl_name, priv, info_only=False):
     """signer of the library for key type kt; the (slow) import of the private key is done once per key"""
     cls = {'ec': Sha256WithEcdsaSigner, 'rsa': Sha256WithRsaSigner, 'ed': Ed25519Signer}[kt]
+    if info_only:
+        s = cls.__new__(cls)
+        s.key_locator_name = kl_name
+        return s.write_signature_info
     k = (kt, bytes(priv))
     if k not in _imported:
         _imported[k] = cls('/unused', priv)
@@ -132,13 +136,31 @@ class _OddSigner(enc.Signer):
         return 32
 
 
+class _ReplaySigner(enc.Signer):
+    """SignatureInfo as the genuine signer of that key type and key locator writes it, SignatureValue = the bytes of
+    a signature made earlier over OTHER signed bytes"""
+    def __init__(self, kt, kl_name, sig_value):
+        self.info = _signer(kt, kl_name, None, info_only=True)
+        self.sig_value = bytes(sig_value)
+
+    def write_signature_info(self, signature_info):
+        self.info(signature_info)
+
+    def get_signature_value_size(self):
+        return len(self.sig_value)
+
+    def write_signature_value(self, wire, contents):
+        wire[:len(self.sig_value)] = self.sig_value
+        return len(self.sig_value)
+
+
 def _flip_last(wire):
     b = bytearray(wire)
     b[-1] ^= 0x01
     return bytes(b)
 
 
-NOT_KEYS = {'forged', 'digest', 'none', 'hmac', 'unknownsig', 'hmacpub', 'digestkl', 'wrongtype'}
+NOT_KEYS = {'forged', 'replay', 'digest', 'none', 'hmac', 'unknownsig', 'hmacpub', 'digestkl', 'wrongtype'}
 OTHER_TYPE = {'ec': 'rsa', 'rsa': 'ec', 'ed': 'ec'}
 
 
@@ -183,8 +205,13 @@ def materialise(world, kt, pool):
                      - NOT_KEYS)
     kidx = {k: i for i, k in enumerate(key_ids)}
 
-    def signer_for(el):
+    replay = dict(world.get('replay') or {})
+
+    def signer_for(el, n=None):
         kl = None if el['kl'] == 'none' else m.name[el['kl']]
+        if el['sig'] == 'replay':
+            _, _, _, sp = enc.parse_data(m.wire[replay[n]])
+            return _ReplaySigner(kt, kl, sp.signature_value_buf), False
         if el['sig'] == 'digest':
             return DigestSha256Signer(), False
         if el['sig'] == 'hmacpub':
@@ -212,15 +239,15 @@ def materialise(world, kt, pool):
             return _signer(kt, kl, pool.get(kt, kidx[k])[0]), True
         return _signer(kt, kl, pool.get(kt, kidx[el['sig']])[0]), False
     start = datetime(2020, 1, 1)
-    for n, c in certs.items():
-        sg, forge = signer_for(c)
+    for n, c in sorted(certs.items(), key=lambda x: x[1]['sig'] == 'replay'):      # replayed signatures after their sources
+        sg, forge = signer_for(c, n)
         full = m.name[n]
         cname, wire = sv2.new_cert(full[:-2], full[-2], pool.get(kt, kidx[c['key']])[1], sg, start, start + timedelta(days=7300))
         if enc.Name.to_bytes(cname) != enc.Name.to_bytes(full):
             raise tlc.MachineryError('certificate name differs from the planned one: %s' % enc.Name.to_str(cname))
         m.wire[n] = _flip_last(bytes(wire)) if forge else bytes(wire)
-    for n, p in pkts.items():
-        sg, forge = signer_for(p)
+    for n, p in sorted(pkts.items(), key=lambda x: x[1]['sig'] == 'replay'):
+        sg, forge = signer_for(p, n)
         wire = enc.make_data(m.name[n], enc.MetaInfo(freshness_period=1000), b'payload of ' + n.encode(), sg)
         m.wire[n] = _flip_last(bytes(wire)) if forge else bytes(wire)
     for n, rn in m.name.items():
